@@ -266,6 +266,7 @@ func runC18(c *Ctx, pr *PropertyRun) {
 	}
 	ad.RequireRole("handler")
 
+	addressedOnlyRule(c, pr, "C18")
 	c18Upload(c, pr, "C18")
 	// Close reports the outcome of the request: what the request layer makes
 	// of each status class (shared with C14.status-tables)
@@ -834,6 +835,31 @@ receives:
 			continue
 		}
 		eachInstr(fn, func(b *ssa.BasicBlock, in ssa.Instruction) {
+			// a receive in a select statement (blocking or not) takes the
+			// one value just as well
+			if sel, isSel := in.(*ssa.Select); isSel {
+				for _, st := range sel.States {
+					if st.Dir != types.RecvOnly {
+						continue
+					}
+					ld, ok := st.Chan.(*ssa.UnOp)
+					if !ok {
+						continue
+					}
+					fa, ok := ld.X.(*ssa.FieldAddr)
+					if !ok || namedOf(fa.X.Type()) != fwT {
+						continue
+					}
+					if _, isChan := fa.Type().(*types.Pointer).Elem().Underlying().(*types.Chan); !isChan {
+						continue
+					}
+					r.Role("done-receive")
+					ok = false
+					r.Ob(ok)
+					r.Violation("extra-receive|"+fnKey(fn)+"|select", p.instrPos(sel), fnKey(fn)+" receives from the upload's done channel in a select statement: exactly one value is ever sent on it; when this receive takes it, Close (which must receive it and return it) blocks forever afterwards, and when Close's own receive is a select with other cases it may return without the server's answer", nil)
+				}
+				return
+			}
 			un, ok := in.(*ssa.UnOp)
 			if !ok || un.Op != token.ARROW {
 				return
